@@ -94,6 +94,57 @@ Theorem C06_filter_rule :
 Proof. reflexivity. Qed.
 Print Assumptions C06_filter_rule.
 
+(* ---- the spelling clause: "the outcome does not depend on how the roots are spelled (relative, ./, .., trailing slash,
+   through a symlink)".  At the level of the walk (WalkModel.v, qualified: it has its own path/config types) the input paths
+   enter only through walk.rs `absolute`; two lists of input paths with the same `absolute` images give the same walk and scan
+   for every tree, configuration and scheduler, and the spellings r/. , r/x/.. (x a real sub-directory) and any two spellings
+   with the same canonical directory (e.g. through a symbolic link) have the same image.  `..` is resolved physically
+   (after the links before it), never lexically: WalkProofs6.ex_link_dotdot_physical. ---- *)
+From FV Require WalkModel WalkProofs6.
+
+Theorem C06_spelling_only_through_absolute :
+  forall sel_file sel_dir ign1 (t : WalkModel.tree) (c : WalkModel.config) sched roots1 roots2,
+    map (WalkModel.absolute t) roots1 = map (WalkModel.absolute t) roots2 ->
+    WalkModel.walk sel_file sel_dir ign1 t c sched roots1 = WalkModel.walk sel_file sel_dir ign1 t c sched roots2 /\
+    WalkModel.scan sel_file sel_dir ign1 t c sched roots1 = WalkModel.scan sel_file sel_dir ign1 t c sched roots2.
+Proof. exact WalkProofs6.walk_spelling. Qed.
+Print Assumptions C06_spelling_only_through_absolute.
+
+Theorem C06_spelling_dot :
+  forall (t : WalkModel.tree) raw p,
+    WalkModel.canon t raw = Some p -> WalkProofs6.dir_at t p ->
+    WalkModel.absolute t (raw ++ [WalkModel.dot]) = WalkModel.absolute t raw.
+Proof. exact WalkProofs6.absolute_dot. Qed.
+Print Assumptions C06_spelling_dot.
+
+Theorem C06_spelling_subdir_dotdot :
+  forall (t : WalkModel.tree) raw x p,
+    WalkModel.canon t raw = Some p -> WalkProofs6.dir_at t p -> WalkProofs6.dir_at t (p ++ [x]) ->
+    WalkModel.comp_eqb x WalkModel.dot = false -> WalkModel.comp_eqb x WalkModel.dotdot = false ->
+    WalkModel.absolute t (raw ++ [x; WalkModel.dotdot]) = WalkModel.absolute t raw.
+Proof. exact WalkProofs6.absolute_dir_up. Qed.
+Print Assumptions C06_spelling_subdir_dotdot.
+
+Theorem C06_spelling_same_canonical_directory :
+  forall (t : WalkModel.tree) raw1 raw2 p,
+    WalkModel.canon t raw1 = Some p -> WalkModel.canon t raw2 = Some p -> WalkProofs6.dir_at t p ->
+    WalkModel.absolute t raw1 = WalkModel.absolute t raw2.
+Proof. exact WalkProofs6.absolute_same_canon. Qed.
+Print Assumptions C06_spelling_same_canonical_directory.
+
+(* Non-vacuity and the physical reading of `..`: /t/lnk -> /far/away/inner, so t/lnk/.. is /far/away, not /t *)
+Example C06_spelling_inhabited :
+  WalkModel.canon WalkProofs6.s6tree [WalkProofs6.n_t; WalkProofs6.n_lnk; WalkModel.dotdot] = Some [WalkProofs6.n_far; WalkProofs6.n_away] /\
+  WalkModel.absolute WalkProofs6.s6tree [WalkProofs6.n_t; WalkProofs6.n_lnk; WalkModel.dotdot] = [WalkProofs6.n_far; WalkProofs6.n_away] /\
+  WalkModel.absolute WalkProofs6.s6tree [WalkProofs6.n_t; WalkModel.dot] = [WalkProofs6.n_t] /\
+  WalkModel.absolute WalkProofs6.s6tree [WalkProofs6.n_t; WalkProofs6.n_sub; WalkModel.dotdot] = [WalkProofs6.n_t] /\
+  WalkModel.absolute WalkProofs6.s6tree [WalkProofs6.n_lt] = [WalkProofs6.n_t] /\
+  WalkModel.absolute WalkProofs6.s6tree [WalkModel.dot; WalkProofs6.n_t] = [WalkProofs6.n_t] /\
+  WalkModel.canon WalkProofs6.s6tree [WalkProofs6.n_t] = Some [WalkProofs6.n_t] /\
+  WalkProofs6.dir_at WalkProofs6.s6tree [WalkProofs6.n_t] /\
+  WalkProofs6.dir_at WalkProofs6.s6tree ([WalkProofs6.n_t] ++ [WalkProofs6.n_sub]).
+Proof. exact WalkProofs6.ex_link_dotdot_physical. Qed.
+
 (* Non-vacuity: the README's example — four hard links of one file plus a copy: 2 replicas by default,
    5 with --match-links, and with --isolate over two roots one replica per root. *)
 Definition rd_files : list file :=
